@@ -122,7 +122,7 @@ func Packet(r *fw.Rand, c PacketClasses) *ref.Packet {
 		p.ExtKind = ref.ExtOneByte
 		n := []int{1, r.Range(2, 4), r.Range(1, 14)}[c.Ext-2]
 		for _, id := range distinctIDs(r, n, 1, 14) {
-			p.Elems = append(p.Elems, ref.Elem{ID: id, Val: r.Bytes(oneByteLen(r))})
+			p.Elems = append(p.Elems, ref.Elem{ID: id, Val: Value(r, oneByteLen(r))})
 		}
 	case 5: // two-byte, no element
 		p.ExtKind = ref.ExtTwoByte
@@ -133,7 +133,7 @@ func Packet(r *fw.Rand, c PacketClasses) *ref.Packet {
 			n = r.Range(7, 16) // many elements
 		}
 		for _, id := range distinctIDs(r, n, 1, 255) {
-			p.Elems = append(p.Elems, ref.Elem{ID: id, Val: r.Bytes(twoByteLen(r))})
+			p.Elems = append(p.Elems, ref.Elem{ID: id, Val: Value(r, twoByteLen(r))})
 		}
 	case 8, 9: // legacy
 		p.ExtKind = ref.ExtLegacy
@@ -152,7 +152,7 @@ func Packet(r *fw.Rand, c PacketClasses) *ref.Packet {
 		} else if r.Bool() {
 			words = 1
 		}
-		p.Elems = []ref.Elem{{ID: 0, Val: r.Bytes(4 * words)}}
+		p.Elems = []ref.Elem{{ID: 0, Val: Value(r, 4*words)}}
 	}
 	var pl int
 	switch c.Payload {
@@ -172,7 +172,7 @@ func Packet(r *fw.Rand, c PacketClasses) *ref.Packet {
 	if c.Payload >= 4 && r.Chance(1, 300) {
 		pl = r.Pick(65523, 65535, 65536, 65537, 70000) // datagrams beyond 64 KiB (jumbograms, or after reassembly by a lower layer)
 	}
-	p.Payload = r.Bytes(pl)
+	p.Payload = Value(r, pl)
 	switch c.Pad {
 	case 0, 1:
 		p.PadSize = 0
@@ -187,7 +187,66 @@ func Packet(r *fw.Rand, c PacketClasses) *ref.Packet {
 	default:
 		p.PadSize = uint8(r.Range(1, 255))
 	}
+	if r.Chance(1, 4) {
+		coincide(r, p)
+	}
 	return p
+}
+
+// Value returns n content bytes: mostly random, sometimes made of the octets that mean something to the framing around it
+// (00 = extension padding, trailing 00, leading 00, FF, a one-byte element header): content is opaque and must survive as it is.
+func Value(r *fw.Rand, n int) []byte {
+	b := r.Bytes(n)
+	if n == 0 {
+		return b
+	}
+	switch r.Intn(12) {
+	case 0:
+		for i := range b {
+			b[i] = 0
+		}
+	case 1:
+		b[n-1] = 0
+		if n > 1 && r.Bool() {
+			b[n-2] = 0
+		}
+	case 2:
+		b[0] = 0
+	case 3:
+		for i := range b {
+			b[i] = 0xFF
+		}
+	case 4:
+		b[n-1] = byte(r.Pick(0xF0, 0xFF, 0x10, 0x01, n-1, n))
+	}
+	return b
+}
+
+// coincide makes header field values coincide with quantities of the packet itself (total size, size in words minus one as
+// RTCP counts it, header size, payload length) and makes the second octet look like an RTCP packet type (RFC 5761: 192-223):
+// the fields are opaque numbers, so no relation between them and the sizes may matter to the codec.
+func coincide(r *fw.Rand, p *ref.Packet) {
+	total := len(ref.Encode(p, nil))
+	hdr := total - len(p.Payload) - int(p.PadSize)
+	cand := []int{total, total - 1, total + 1, total / 4, total/4 - 1, total/4 + 1, hdr, hdr / 4, hdr/4 - 1, len(p.Payload), len(p.Payload) / 4, int(p.PadSize), total - 12}
+	pick := func() int { return cand[r.Intn(len(cand))] }
+	p.Seq = uint16(pick())
+	if r.Bool() {
+		p.TS = uint32(pick())
+	}
+	if r.Bool() {
+		p.SSRC = uint32(pick())
+	}
+	if len(p.CSRC) > 0 && r.Bool() {
+		p.CSRC[r.Intn(len(p.CSRC))] = uint32(pick())
+	}
+	if r.Chance(2, 3) {
+		p.Marker = true
+		p.PT = uint8(r.Pick(64, 72, 73, 74, 75, 76, 77, 78, 79, 80, 95, r.Range(64, 95))) // second octet 192..223
+	}
+	if r.Chance(1, 3) {
+		p.Version = 2
+	}
 }
 
 func lenClass(n int) string {
